@@ -245,6 +245,68 @@ pub fn hash_json<T: Serialize>(v: &T) -> u64 {
     h.finish()
 }
 
+// ---------------------------------------------------------------------------
+// Deterministic std::collections::HashMap iteration order.
+//
+// undermoon iterates over std HashMaps in places where the order decides between
+// equally valid outcomes (which free proxy is allocated, which tie wins). std seeds
+// every thread's RandomState from getrandom(2) the first time a HashMap is created
+// on that thread. The harness binary defines the `getrandom` symbol itself (it takes
+// precedence over libc's); for threads that installed a hash seed it returns bytes
+// derived from that seed, everything else gets the real syscall. Every case is run
+// on a fresh thread with the seed installed, so a case plus its recorded `hseed`
+// replays with identical map orders in any process.
+// ---------------------------------------------------------------------------
+thread_local! {
+    static HSEED: std::cell::Cell<Option<u64>> = const { std::cell::Cell::new(None) };
+    static HCTR: std::cell::Cell<u64> = const { std::cell::Cell::new(0) };
+}
+
+/// # Safety
+/// called by libstd / C code with a valid buffer of `len` bytes
+#[no_mangle]
+pub unsafe extern "C" fn getrandom(buf: *mut u8, len: usize, flags: u32) -> isize {
+    let seed = HSEED.try_with(|s| s.get()).ok().flatten();
+    match seed {
+        Some(seed) => {
+            let c = HCTR.try_with(|c| {
+                let v = c.get();
+                c.set(v + 1);
+                v
+            })
+            .unwrap_or(0);
+            let mut x = splitmix(seed ^ splitmix(c));
+            for i in 0..len {
+                if i % 8 == 0 {
+                    x = splitmix(x);
+                }
+                *buf.add(i) = (x >> ((i % 8) * 8)) as u8;
+            }
+            len as isize
+        }
+        None => libc::syscall(libc::SYS_getrandom, buf, len, flags) as isize,
+    }
+}
+
+/// Run `f` on a fresh thread whose HashMaps are seeded deterministically from `hseed`.
+pub fn on_seeded_thread<T: Send>(hseed: u64, f: impl FnOnce() -> T + Send) -> std::thread::Result<T> {
+    std::thread::scope(|s| {
+        std::thread::Builder::new()
+            .stack_size(2 << 20)
+            .spawn_scoped(s, move || {
+                HSEED.with(|h| h.set(Some(hseed)));
+                HCTR.with(|c| c.set(0));
+                f()
+            })
+            .expect("spawn case thread")
+            .join()
+    })
+}
+
+pub fn hseed_of(ctx_seed: u64) -> u64 {
+    splitmix(ctx_seed ^ 0x68617368)
+}
+
 thread_local! {
     static LAST_PANIC: std::cell::RefCell<Option<String>> = const { std::cell::RefCell::new(None) };
 }
@@ -291,15 +353,32 @@ pub fn panic_signature(p: &str) -> String {
     format!("panic@{}", loc)
 }
 
-/// Run `check` on one case, converting panics into failures.
-pub fn run_case<C>(check: &(dyn Fn(&C, &mut Obs) -> Result<(), Fail> + Sync), case: &C, obs: &mut Obs) -> Result<(), Fail> {
-    let _ = take_last_panic();
-    match catch_unwind(AssertUnwindSafe(|| check(case, obs))) {
-        Ok(r) => r,
-        Err(_) => {
-            let p = take_last_panic().unwrap_or_else(|| "unknown panic".into());
-            Err(Fail::new(panic_signature(&p), format!("panic: {}", p)))
+/// Run `check` on one case (on a fresh, deterministically seeded thread),
+/// converting panics into failures.
+pub fn run_case<C: Sync>(
+    hseed: u64,
+    check: &(dyn Fn(&C, &mut Obs) -> Result<(), Fail> + Sync),
+    case: &C,
+    obs: &mut Obs,
+) -> Result<(), Fail> {
+    let r = on_seeded_thread(hseed, || {
+        let _ = take_last_panic();
+        let mut o = Obs::default();
+        let r = match catch_unwind(AssertUnwindSafe(|| check(case, &mut o))) {
+            Ok(r) => r,
+            Err(_) => {
+                let p = take_last_panic().unwrap_or_else(|| "unknown panic".into());
+                Err(Fail::new(panic_signature(&p), format!("panic: {}", p)))
+            }
+        };
+        (r, o)
+    });
+    match r {
+        Ok((r, o)) => {
+            *obs = o;
+            r
         }
+        Err(_) => Err(Fail::new("panic@case-thread", "the case thread died")),
     }
 }
 
@@ -324,6 +403,7 @@ pub fn write_replay<C: Serialize>(ctx: &Ctx, sub: &str, case: &C, fail: &Fail) -
         "signature": fail.signature,
         "message": fail.message,
         "seed": ctx.seed,
+        "hseed": hseed_of(ctx.seed),
         "case": case,
     });
     let _ = std::fs::write(&path, serde_json::to_string_pretty(&v).unwrap());
@@ -343,11 +423,12 @@ pub fn drive<C, S>(
     check: &(dyn Fn(&C, &mut Obs) -> Result<(), Fail> + Sync),
 ) -> SubReport
 where
-    C: std::fmt::Debug + Serialize + DeserializeOwned + Clone + Send,
+    C: std::fmt::Debug + Serialize + DeserializeOwned + Clone + Send + Sync,
     S: Strategy<Value = C>,
 {
     let workers = ctx.workers.max(1).min(cases.max(1) as usize);
     let per = cases.div_ceil(workers as u32);
+    let default_hseed = hseed_of(ctx.seed);
     let total = Mutex::new(Stats::default());
     let violations = Mutex::new(Vec::<Violation>::new());
     let stop_all = AtomicBool::new(false);
@@ -364,8 +445,9 @@ where
                 continue;
             }
             let Ok(case) = serde_json::from_value::<C>(v["case"].clone()) else { continue };
+            let hseed = v.get("hseed").and_then(|x| x.as_u64()).unwrap_or(default_hseed);
             let mut obs = Obs::default();
-            let r = run_case(check, &case, &mut obs);
+            let r = run_case(hseed, check, &case, &mut obs);
             let mut t = total.lock().unwrap();
             let h = hash_json(&case);
             obs.class("corpus-replay");
@@ -396,6 +478,7 @@ where
             let stop_all = &stop_all;
             let strategy = &strategy;
             scope.spawn(move || {
+                let hseed = default_hseed;
                 let seed = derive_seed(ctx.seed, &ctx.prop, name, w);
                 let config = Config {
                     cases: per,
@@ -415,7 +498,7 @@ where
                         return Ok(());
                     }
                     let mut obs = Obs::default();
-                    let r = run_case(check, &case, &mut obs);
+                    let r = run_case(hseed, check, &case, &mut obs);
                     let r = match r {
                         Err(fail) => match findings.known(&ctx.prop, &fail.signature) {
                             Some(k) => {
@@ -454,7 +537,7 @@ where
                     stop_all.store(true, Ordering::Relaxed);
                     // re-run the shrunk case for signature and message
                     let mut obs = Obs::default();
-                    let fail = match run_case(check, &shrunk, &mut obs) {
+                    let fail = match run_case(hseed, check, &shrunk, &mut obs) {
                         Err(f) => f,
                         Ok(()) => Fail::new(
                             "non-reproducible",
@@ -507,6 +590,7 @@ where
     let violations = Mutex::new(Vec::<Violation>::new());
     let next = std::sync::atomic::AtomicUsize::new(0);
     let n = cases.len();
+    let hseed = hseed_of(ctx.seed);
     let workers = ctx.workers.max(1).min(n.max(1));
     std::thread::scope(|scope| {
         for _ in 0..workers {
@@ -519,7 +603,7 @@ where
                     }
                     let case = &cases[i];
                     let mut obs = Obs::default();
-                    let r = run_case(check, case, &mut obs);
+                    let r = run_case(hseed, check, case, &mut obs);
                     let h = hash_json(case);
                     let sample = if i < 2 || i == n - 1 {
                         serde_json::to_value(case).ok()
@@ -573,7 +657,7 @@ pub fn replay_case<C>(
     check: &(dyn Fn(&C, &mut Obs) -> Result<(), Fail> + Sync),
 ) -> Option<SubReport>
 where
-    C: std::fmt::Debug + Serialize + DeserializeOwned + Clone + Send,
+    C: std::fmt::Debug + Serialize + DeserializeOwned + Clone + Send + Sync,
 {
     if v.get("sub").and_then(|x| x.as_str()) != Some(name) {
         return None;
@@ -588,7 +672,8 @@ where
     let mut stats = Stats::default();
     let mut violations = vec![];
     let mut obs = Obs::default();
-    let r = run_case(check, &case, &mut obs);
+    let hseed = v.get("hseed").and_then(|x| x.as_u64()).unwrap_or_else(|| hseed_of(ctx.seed));
+    let r = run_case(hseed, check, &case, &mut obs);
     let h = hash_json(&case);
     match r {
         Ok(()) => {
